@@ -7,9 +7,26 @@ from tools import vlib
 PID = "C25"
 READY = False
 MANIFEST = {
-    "level_text": "",
-    "level_note": "",
-    "technique": "",
+    "level_text": "Lean 4 theorems about an executable model of RelayServer (sessions, registered_, read/write buffers, partner "
+                  "pointers; events accept / one recv() chunk / EOF / error / partial write), for every event sequence over any number of "
+                  "clients and ids: the pairing table is symmetric, pairs two distinct live sessions, a peer is claimed by at most one "
+                  "connector, a bridged session has a bridged partner (C25.inv); a chunk received from a bridged client is appended whole "
+                  "to the end of exactly its partner's write buffer and nothing else changes (delivery, delivery_spec); every write buffer "
+                  "is a FIFO of exactly what was queued for that client (fifo, flush_fifo); every byte a step queues is either a reply "
+                  "to the sending client or goes to the client whose bridge with the sender is established after the step, relayed bytes "
+                  "being the sender's own (relay_only_to_bridged_partner, isolation_spec); EOF/error on one side of a bridge closes the "
+                  "other side in the same step (teardown). The model is tied to the code by regenerated protocol words, reply texts, "
+                  "identity size and recv chunk size, and by a differential run of the real RelayServer (real loopback sockets, "
+                  "harness-scheduled events) against the compiled model, with the same Lean specification predicates judging the "
+                  "implementation's own session table and per-client received bytes after every op.",
+    "level_note": "Trusted: Lean kernel; hand transcription of RelayServer.cpp into Lean (checked only by the differential run, which "
+                  "compares per-client bytes, closures, session states, partners, read-buffer sizes, registrations and fd counts after "
+                  "every op); kernel TCP semantics; weak_ptr::lock() modelled as 'session still in sessions_'. Not covered: EventLoop::run "
+                  "dispatch (the harness calls accept_new_clients/on_client_event itself), send() errors (model event `err`, not "
+                  "provoked), partial writes (model event `flush c n`, the harness always drains). The theorems hold for the repaired "
+                  "code (fixes/C25-reregister-claimed.patch); the unrepaired tree fails the check with signature claim-unique.",
+    "technique": "Lean 4 invariant proof over all event sequences (induction over histories) + model/implementation differential "
+                 "correspondence on real sockets with a Lean monitor",
 }
 
 RELAY_CPP = "src/relay/RelayServer.cpp"
@@ -414,7 +431,7 @@ def spec() -> Spec:
         extract=extract,
         nontrivial=nontrivial,
         post=post,
-        budget={"quick": 700, "thorough": 12000},
+        budget={"quick": 600, "thorough": 10000},
         search_budget={"quick": 2500, "thorough": 25000},
         per_case_timeout=40.0,
         rule="interleavings of REGISTER/CONNECT/identity/data/disconnect scripts of 2-5 clients over 1-3 peer ids against the real "
